@@ -78,7 +78,16 @@ def write_replay(pid, ob, failed, trace, verifier_text, defines):
             'defines': defines, 'extra_srcs': ob.extra_srcs, 'kind': ob.kind,
             'verifier_output': verifier_text[-6000:]}
     status = 'no-input'
-    if ob.replayable and trace:
+    if ob.replayable and trace and ob.stream_replay:
+        import streamgen
+        vals, avals, scal, arrs = extract_values(trace, harness_path)
+        info['values'] = vals
+        try:
+            sr, status = streamgen.STREAM_REPLAYS[ob.stream_replay](vals, rdir)
+        except Exception as e:  # replay machinery failure is never a verdict
+            sr, status = {'error': repr(e)}, 'build-failed'
+        info['stream_replay'] = sr
+    elif ob.replayable and trace:
         vals, avals, scal, arrs = extract_values(trace, harness_path)
         lines = ['/* generated from the CBMC counterexample */']
         for _, n in scal:
